@@ -298,5 +298,66 @@ def run_children(ctx, n):
             ctx.oracle_fail(s_, w, rep)
 
 
+def run_expr_children(ctx):
+    """The hand-written constructors of the expression layers: NumberMulExpr.from_children / NumberAddExpr.from_children
+    with 1..4 operands and every operator combination, alone and wrapped into NumberExpr -> Amount -> Posting ->
+    Transaction -> File.  Judged like every constructed tree (invariant, whole store, re-parse), plus: the store holds
+    every token object once, walking it with get_next from the first token visits the printing order, and one spacing
+    assignment next to the first operator changes exactly that gap."""
+    import itertools
+    D = decimal.Decimal
+    num = lambda i: models.Number.from_value(D(i + 2))
+    for layer, ops_txt in (('mul', '*/'), ('add', '+-')):
+        for n in (1, 2, 3, 4):
+            for ops in itertools.product(ops_txt, repeat=n - 1):
+                for wrap in ('alone', 'file'):
+                    rep = {'cls': 'expr-' + layer, 'ops': list(ops), 'wrap': wrap}
+                    try:
+                        if layer == 'mul':
+                            e = models.NumberMulExpr.from_children(tuple(num(i) for i in range(n)), tuple(models.MulOp.from_raw_text(o) for o in ops))
+                            top = e
+                        else:
+                            e = models.NumberAddExpr.from_children(
+                                tuple(models.NumberMulExpr.from_children((num(i),), ()) for i in range(n)), tuple(models.AddOp.from_raw_text(o) for o in ops))
+                            top = e
+                        if layer == 'mul':
+                            e = models.NumberAddExpr.from_children((e,), ())
+                        ne = top = models.NumberExpr.from_children(e)
+                        cls = models.NumberExpr
+                        if wrap == 'file':
+                            post = models.Posting.from_children(models.Account.from_value('Assets:A'), ne, models.Currency.from_value('USD'),
+                                                                indent=models.Indent.from_value('  '))
+                            txn = models.Transaction.from_children(models.Date.from_value(datetime.date(2000, 1, 1)), models.TransactionFlag.from_value('*'),
+                                                                   None, None, [post])
+                            top = models.File.from_children([txn])
+                            cls = models.File
+                    except Exception as ex:
+                        ctx.oracle_fail(f'C15:from_children-raises:expr-{layer}:{type(ex).__name__}', str(ex)[:200], rep)
+                        continue
+                    ctx.case(('expr-children', layer, n, ops, wrap))
+                    fails = check_one(cls, top, 'expr')
+                    toks = list(top.token_store)
+                    if not fails and len({id(t) for t in toks}) != len(toks):
+                        fails = [(f'C15:token-object-twice:{layer}', f'{intro.pr(top)!r}: one token object sits at several places of the constructed store')]
+                    if not fails:
+                        walk, t = [], top.token_store.get_first()
+                        while t is not None and len(walk) <= len(toks):
+                            walk.append(t)
+                            t = top.token_store.get_next(t)
+                        if [id(x) for x in walk] != [id(x) for x in toks]:
+                            fails = [(f'C15:walk-differs:{layer}', f'{intro.pr(top)!r}: walking the store with get_next does not visit the printing order')]
+                    if not fails and n > 1:
+                        inner = ne.raw_number_add_expr if layer == 'add' else ne.raw_number_add_expr.raw_operands[0]
+                        before = intro.pr(top)
+                        eb = intro.pr(ne)
+                        leaf = inner.raw_operands[0] if layer == 'mul' else inner.raw_operands[0].raw_operands[0]
+                        leaf.spacing_after = '   '
+                        want = before.replace(eb, eb.replace(' ' + ops[0], '   ' + ops[0], 1), 1)
+                        if intro.pr(top) != want:
+                            fails = [(f'C15:spacing-after-first-operand:{layer}', f'{before!r} -> {intro.pr(top)!r}, expected {want!r}')]
+                    for s_, w in fails[:1]:
+                        ctx.oracle_fail(s_, w, rep)
+
+
 DIRECTIVE_NAMES = {'Balance', 'Close', 'Commodity', 'Custom', 'Document', 'Event', 'Include', 'Note', 'Open', 'Option', 'Pad',
                    'Plugin', 'Popmeta', 'Poptag', 'Price', 'Pushmeta', 'Pushtag', 'Query', 'Transaction'}
